@@ -384,12 +384,52 @@ fn dissat_class_corpus(ctx: CtxK) -> Vec<Node> {
     c
 }
 
+/// ONE key used twice, for every pair of occurrence kinds (checked key, checked key hash, multisig
+/// member) and every two-path shape in which the second path can reuse the signature shown by the
+/// first.  The unchanged library refuses all of them (`DuplicateKeys`), so they only feed the
+/// candidate counters; a repeated-key rule that lets a pair through makes it sane and judged.
+fn repeated_key_corpus(ctx: CtxK) -> Vec<Node> {
+    let k = |i: u32| if ctx == CtxK::Tap { 200 + i } else { i };
+    let sha = |h: u32| Node::Hash(HK::Sha256, h);
+    let v = |n: Node| Node::Verify(bx(n));
+    let occ = |kind: usize, key: u32| -> Node {
+        match kind {
+            0 => pk(key),
+            1 => Node::Check(bx(Node::PkH(key))),
+            _ => if ctx == CtxK::Tap { Node::MultiA(1, vec![key]) } else { Node::Multi(1, vec![key]) },
+        }
+    };
+    let mut c = vec![];
+    for kx in 0..3usize {
+        for ky in 0..3usize {
+            let (x, y) = (occ(kx, k(0)), occ(ky, k(0)));
+            c.push(Node::OrD(bx(x.clone()), bx(Node::AndV(bx(v(y.clone())), bx(Node::Older(10))))));
+            c.push(Node::OrD(bx(x.clone()), bx(Node::AndV(bx(v(y.clone())), bx(sha(0))))));
+            c.push(Node::AndOr(bx(x.clone()), bx(Node::Older(10)), bx(y.clone())));
+            c.push(Node::AndOr(bx(x.clone()), bx(pk(k(1))), bx(y.clone())));
+            c.push(Node::OrB(bx(x.clone()), bx(Node::Alt(bx(y.clone())))));
+            c.push(Node::Thresh(1, vec![x.clone(), Node::Alt(bx(y.clone()))]));
+            c.push(Node::Thresh(2, vec![x.clone(), Node::Alt(bx(y.clone())), Node::Alt(bx(pk(k(1))))]));
+            c.push(Node::AndV(bx(v(pk(k(1)))), bx(Node::OrD(bx(x.clone()), bx(Node::AndV(bx(v(y.clone())), bx(Node::After(100))))))));
+            if !matches!(ctx, CtxK::Legacy | CtxK::Bare) {
+                c.push(Node::OrI(bx(Node::AndV(bx(v(y.clone())), bx(Node::Older(10)))), bx(x.clone())));
+                c.push(Node::OrI(bx(x.clone()), bx(Node::AndV(bx(v(y.clone())), bx(sha(0))))));
+            }
+            // the repeated key as a member of a larger multisig next to a lone occurrence
+            let m2 = if ctx == CtxK::Tap { Node::MultiA(1, vec![k(1), k(0)]) } else { Node::Multi(1, vec![k(1), k(0)]) };
+            if kx == 0 { c.push(Node::OrD(bx(y.clone()), bx(Node::AndV(bx(v(m2)), bx(Node::Older(10)))))); }
+        }
+    }
+    c
+}
+
 /// every designated script of a context: own corpus, the shared dimension corpus, the
-/// dissatisfaction-class corpus
+/// dissatisfaction-class corpus, the repeated-key corpus
 fn designated(ctx: CtxK) -> Vec<Node> {
     let mut c = hand_corpus(ctx);
     c.extend(ast::dimension_corpus(ctx));
     c.extend(dissat_class_corpus(ctx));
+    c.extend(repeated_key_corpus(ctx));
     c
 }
 
@@ -672,5 +712,5 @@ pub fn run(out: &mut Out, thorough: bool, seed: u64) {
     out.note("positive_controls", n_ctl.to_string());
     out.note("distinct_nontrivial", n_judged.to_string());
     out.note("search", "exhaustive for every judged case, nothing skipped: ALL stacks of EVERY length (bound 100 items, never reached: the search descends only while the script still consumes elements) over Adv(w) = elements of w + {empty, 01, 02, 32 zero bytes, 32 junk bytes, 33 junk bytes} + every preimage + every public key of the script (also the keys behind raw key hashes); pruned depth-first from the stack top; inside a CHECKMULTISIG signature block only the empty string and valid signatures are tried (rule proved sound: C03.search_sigblock_pruning_sound); cross-checked against brute force up to |w|+1 on the small cases (C advbrute), against the specification table as an independent generator of satisfactions (J advcovers) and by positive controls (C advfinds, C dadvfinds, C dadvalt); a case whose search budget (3e6 script runs) runs out is reported as a failure".into());
-    out.note("domain", "miniscript level: B-typed scripts that pass Ctx::SANE: own hand corpus (multi/multi_a/sortedmulti n=3..5, all hash kinds, raw_pkh as extension) + ast::dimension_corpus (both lock units, same-unit lock pairs, thresholds with lock children, one-child thresholds, uncompressed keys in every position incl. one point in both encodings) + dissatisfaction-class corpus (and_b / andor / or_i Unique vs Unknown twins under or_d / or_b / thresh / andor) + enumerated fragments to depth 3 with keys renamed pairwise distinct (uncompressed ids kept) and wrapped with fresh signatures; segwitv0, tap, legacy, bare; x transactions on both sides of every lock (9 for designated scripts) x subsets of keys, raw key hashes and preimages for which the non-malleable satisfier succeeds. Compiler: 14 Concrete policies compiled in segwitv0 / tap / legacy, judged with the COMPILER's type. Descriptor level: wsh / sh(wsh) / sh (incl. uncompressed keys, one point in both encodings) / bare / pkh / wpkh / sh(wpkh) / tr (key only; comb, balanced, right-leaning and mixed trees up to 5 leaves and depth 4; shared keys; internal key reused; one leaf at two depths; full keys of mixed parity), real transactions and sighashes, 64- and 65-byte Schnorr signatures, x key/preimage subsets (full, single removals, random, EMPTY, all keys without preimages) x transactions (incl. NO lock met) x key path available or not, through Descriptor::get_satisfaction AND Descriptor::into_plan + Plan::satisfy; for tr every other leaf / control block and the key path are searched as alternative envelopes".into());
+    out.note("domain", "miniscript level: B-typed scripts that pass Ctx::SANE: own hand corpus (multi/multi_a/sortedmulti n=3..5, all hash kinds, raw_pkh as extension) + ast::dimension_corpus (both lock units, same-unit lock pairs, thresholds with lock children, one-child thresholds, uncompressed keys in every position incl. one point in both encodings) + dissatisfaction-class corpus (and_b / andor / or_i Unique vs Unknown twins under or_d / or_b / thresh / andor) + repeated-key corpus (ONE key twice, every pair of occurrence kinds pk / pkh / multisig member in every two-path shape: refused today as DuplicateKeys, judged the day a rule lets one through) + wrapper towers (ast::wrapper_towers) + enumerated fragments to depth 3 with keys renamed pairwise distinct (uncompressed ids kept) and wrapped with fresh signatures; segwitv0, tap, legacy, bare; x transactions on both sides of every lock (9 for designated scripts) x subsets of keys, raw key hashes and preimages for which the non-malleable satisfier succeeds. Compiler: 14 Concrete policies compiled in segwitv0 / tap / legacy, judged with the COMPILER's type. Descriptor level: wsh / sh(wsh) / sh (incl. uncompressed keys, one point in both encodings) / bare / pkh / wpkh / sh(wpkh) / tr (key only; comb, balanced, right-leaning and mixed trees up to 5 leaves and depth 4; shared keys; internal key reused; one leaf at two depths; full keys of mixed parity), real transactions and sighashes, 64- and 65-byte Schnorr signatures, x key/preimage subsets (full, single removals, random, EMPTY, all keys without preimages) x transactions (incl. NO lock met) x key path available or not, through Descriptor::get_satisfaction AND Descriptor::into_plan + Plan::satisfy; for tr every other leaf / control block and the key path are searched as alternative envelopes".into());
 }
